@@ -211,6 +211,12 @@ func Run(c *gen.Ctx) error {
 		"a/s.graphqls": "directive @da on FIELD_DEFINITION\ntype Query { a: String @da  user_profile: user_profile }\ntype user_profile { x: Int }\nenum E1 { foo_bar FooBar }\n",
 		"b/s.graphqls": "directive @db on FIELD_DEFINITION\nextend type Query { b: String @db  up: UserProfile }\ntype UserProfile { y: Int }\ninput In2 { a: Int }\ninput In1 { b: Int }\n",
 	}})
+	// the same, with no input types, an interface and a union in each file, and directives with arguments declared in
+	// each: whichever definition happens to open the shared generated file must not decide what is written into it
+	projects = append(projects, projectSpec{Name: "same-basename-interfaces", Config: strings.NewReplacer("a/s.graphqls", "a/t.graphqls", "b/s.graphqls", "b/t.graphqls").Replace(sameBaseConfig), Schema: map[string]string{
+		"a/t.graphqls": "directive @da(x: Int) on FIELD_DEFINITION\ninterface NodeA { id: ID! }\ntype TA implements NodeA { id: ID! v: String @da(x: 1) }\ntype TA2 implements NodeA { id: ID! }\nunion UA = TA | TA2\ntype Query { a: NodeA ua: UA }\n",
+		"b/t.graphqls": "directive @db(y: String) on FIELD_DEFINITION\ninterface NodeB { id: ID! }\ntype TB implements NodeB { id: ID! w: String @db(y: \"k\") }\ntype TB2 implements NodeB { id: ID! }\nunion UB = TB | TB2\nextend type Query { b: NodeB ub: UB }\n",
+	}})
 	// passes that walk the types before they are sorted: value-typed struct fields with asymmetric non-null cycles,
 	// interfaces with many implementors, unions with many members, many enums / inputs / directives
 	projects = append(projects, projectSpec{Name: "wide-value-cycles", Config: wideConfig, Schema: map[string]string{"wide.graphqls": wideSchema()}})
